@@ -882,6 +882,9 @@ m("c13-max-supply-through-dec", "C13", "x/coinomics/keeper/inflation.go",
 m("c13-cap-compares-truncated-mint", "C13", "x/coinomics/keeper/inflation.go",
   "\tif blockMint.Ceil().RoundInt().GT(remaining) {", "\tif blockMint.TruncateInt().GT(remaining) {",
   "single-rounding", "the cap comparison truncates where the mint rounds")
+m("c12-upgrade-repair-unconditional", "C12", "app/upgrades/v1.8.0/upgrades.go",
+  "\tif !balISLM.Amount.Sub(amt.Amount).Equal(shares) {", "\tif balISLM.Amount.LT(amt.Amount) {",
+  "keeps-the-equation", "the one-off repair of the DAO total no longer compares with the shares")
 for prop in ("C16", "C07"):
     m("c%s-gas-meter-without-precharge" % prop[1:], prop, "precompiles/common/precompile.go",
       "sdk.NewGasMeter(initialGas + contract.Gas)", "sdk.NewGasMeter(contract.Gas)",
